@@ -1,14 +1,16 @@
 package main
 
 // C14 on the wide grammar (coq/Model/UrlU.v, Fold.v, IriEqU.v): bytes >= 0x80 and percent-escapes in host, path and
-// query; strings.EqualFold with Unicode simple folding.
+// query, userinfo, IP literals; the folding comparison of iri.go (equalFold: Unicode simple folding, a byte that is
+// not valid UTF-8 equal to itself only).
 //  - library models against the real libraries (utf8, EqualFold, unicode.SimpleFold, url.Parse / ParseRequestURI /
-//    String / Query);
+//    String / Query), the model of equalFold against the code (through IRI.Equals on strings that are no URLs);
 //  - a wide grid (raw / escaped / upper / lower presentations of non-ASCII paths, the runes that fold onto ASCII,
-//    invalid UTF-8, escaped queries): natively all ordered pairs against an independent normal form and all triples
-//    for transitivity inside the domain of the theorems (valid UTF-8, query literals in one letter case); a sample
-//    of the pairs through iri_equals_u in Coq, each also asked to satisfy C14_char_u on the observed answer;
-//  - the witnesses of the theorems' side conditions, replayed on the real code and counted (not judged).
+//    invalid UTF-8, escaped queries, hosts with userinfo, IP literals with zones and ports): natively all ordered
+//    pairs against an independent normal form and all triples for transitivity inside the domain of the theorems
+//    (scheme and host, query literals in one letter case - invalid UTF-8 included); a sample of the pairs through
+//    iri_equals_u in Coq, each also asked to satisfy C14_char_u on the observed answer;
+//  - the witnesses of the theorems' side conditions, replayed on the real code.
 
 import (
 	"fmt"
@@ -107,15 +109,13 @@ func c14QueryOneCase(s string) bool {
 	return true
 }
 
-const c14InvalidClass = "invalid-utf8-bytes-fold-equal"
-
 // the domain of the wide theorems (iri_dom_u), evaluated without the model
 func c14InDomU(s string) bool {
-	return utf8.ValidString(s) && c14QueryOneCase(s) && c14WideNorm(s, true).ok
+	return c14QueryOneCase(s) && c14WideNorm(s, true).ok
 }
 
 func c14Wide(g *Gen, rep *Report, outDir string, n int) error {
-	rep.Rule += "; WIDE GRAMMAR (c14u.go): library models of utf8 decoding, strings.EqualFold, unicode.SimpleFold (whole table), url.Parse / ParseRequestURI / URL.String / URL.Query against the real ones on IRI-shaped strings from pools with bytes >= 0x80 (valid and invalid UTF-8), escapes of every kind, odd ASCII, opaque and relative forms, byte-wise mutated; a wide grid host(6: ASCII, raw and escaped non-ASCII, both cases) x path(24: raw / escaped / upper / lower presentations of non-ASCII runes, KELVIN SIGN and LONG S against k and s, invalid UTF-8, spaces) x query(12: escapes in either hex case, '+', ';', malformed escapes): natively all ordered pairs against an independent normal form (own folding over unicode.SimpleFold, invalid bytes kept apart) and all triples for transitivity inside the domain of the theorems; Coq: sampled and related pairs through iri_equals_u, the domain predicate iri_dom_u against its native evaluation, C14_char_u on every observed answer inside the domain; the refutation witnesses of Props/C14.v replayed"
+	rep.Rule += "; WIDE GRAMMAR (c14u.go): library models of utf8 decoding, strings.EqualFold, unicode.SimpleFold (whole table), url.Parse / ParseRequestURI / URL.String / URL.Query against the real ones on IRI-shaped strings from pools with bytes >= 0x80 (valid and invalid UTF-8), escapes of every kind, odd ASCII, opaque and relative forms, byte-wise mutated; userinfo and IP literals (well-formed and not), byte-wise mutated; the model of iri.go equalFold against IRI.Equals on strings that are no URLs; a wide grid host(6: ASCII, raw and escaped non-ASCII, both cases) x path(24: raw / escaped / upper / lower presentations of non-ASCII runes, KELVIN SIGN and LONG S against k and s, invalid UTF-8, spaces) x query(12: escapes in either hex case, '+', ';', malformed escapes) and an authority grid (28: userinfo of every shape, IP literals with zones and ports in either letter case, IPv4) x path(7) x query(3): natively all ordered pairs against an independent normal form (own folding over unicode.SimpleFold, invalid bytes kept apart; URL.Host, so userinfo is not compared) and all triples for transitivity inside the domain of the theorems (invalid UTF-8 included); every IRI with userinfo against itself without; Coq: sampled and related pairs through iri_equals_u, the domain predicate iri_dom_u against its native evaluation, C14_char_u on every observed answer inside the domain; the witnesses of Props/C14.v replayed"
 	// ---------------- (1) the library models ----------------
 	rep.AddCases(uFoldTabCases(outDir, "Cases_C14_foldtab"))
 	cf := uFoldWriter(outDir, "Cases_C14_fold")
@@ -136,7 +136,43 @@ func c14Wide(g *Gen, rep *Report, outDir string, n int) error {
 	}
 	rep.AddCases(cl)
 
-	// ---------------- (2) the wide grid ----------------
+	// the model of iri.go equalFold against the code: for two strings that url.Parse gives no scheme-and-host and that
+	// hold no "#", IRI.Equals(a, b, true) IS equalFold(a, b) (fast path and fallback compare the whole strings)
+	cs := NewCaseWriter(outDir, "Cases_C14_sfold", uLibHeader+
+		"Definition ok (c : bytes * bytes * bool) : bool := let '(a, b, eq) := c in\n"+
+		"  Bool.eqb (sfold_eqb a b) eq && Bool.eqb (sfold_eqb b a) eq\n"+
+		"  && match iri_equals_u a b true with Some r => Bool.eqb r eq | None => false end.\n", "bytes * bytes * bool")
+	// directed pairs: the character U+FFFD against bytes that are not UTF-8 (its own first byte among them), truncated
+	// and surrogate encodings, letter case next to invalid bytes, different lengths
+	sfoldPairs := [][2]string{{"\xef\xbf\xbd", "\xef"}, {"\xef", "\xef\xbf\xbd"}, {"\xef\xbf\xbd", "\xef\xbf"}, {"\xef\xbf\xbd", "\xff"}, {"\xef\xbf\xbd", "\xef\xbf\xbd"}, {"\xef\xbf\xbdx", "\xefx"},
+		{"\xff", "\xff"}, {"\xff", "\xfe"}, {"A\xff", "a\xff"}, {"\xffA", "\xffa"}, {"\xe2\x84\xaa", "k"}, {"\xe2\x84", "\xe2\x84"}, {"\xe2\x84", "\xe2\x84\xaa"}, {"\xe2\x84k", "\xe2\x84K"},
+		{"\xc3\xa9", "\xc3\x89"}, {"\xc3", "\xc3"}, {"\xc3\xa9", "\xc3"}, {"\xed\xa0\x80", "\xed\xa0\x80"}, {"\xed\xa0\x80", "\xef\xbf\xbd\xef\xbf\xbd\xef\xbf\xbd"}, {"\xf4\x90\x80\x80", "\xf4\x90\x80\x80"},
+		{"\xf4\x90\x80\x80", "\xf4\x90\x80\x81"}, {"", "\xff"}, {"\xff", ""}, {"a", "a\xff"}, {"\xc0\x80", "\xc0\x80"}, {"\xc0\x80", "\xc1\x80"}, {"\x80", "\x80"}, {"\x80", "\xbf"}}
+	for i, p := range append(sfoldPairs, g.uFoldPairs(n/6)...) {
+		a, b := p[0], p[1]
+		if strings.Contains(a+b, "#") || c14WideNorm(a, true).ok || c14WideNorm(b, true).ok {
+			continue
+		}
+		obs := ap.IRI(a).Equals(ap.IRI(b), true)
+		rep.Evaluations++
+		if want := c14FoldCanon(a, true) == c14FoldCanon(b, true); obs != want {
+			rep.Violate(Violation{Op: "IRI.Equals on two strings that are no URLs (= equalFold)", Input: []any{a, b, true}, Expected: fmt.Sprint(want), Observed: fmt.Sprint(obs)})
+		}
+		cs.Add("("+hx([]byte(a))+", "+hx([]byte(b))+", "+cbool(obs)+")", fmt.Sprintf("sfold %d %q %q", i, a, b))
+	}
+	rep.AddCases(cs)
+
+	// ---------------- (2) the wide grids ----------------
+	hdrE := "From AP.Model Require Import Prelude Vocab Bytes Url IriEq IriNf Pred CollIri Utf8 Fold UrlU IriEqU.\n" +
+		"Definition ok (c : bytes * bytes * bool * bool * bool) : bool := let '(a, b, cs, o, dom) := c in\n" +
+		"  match iri_equals_u a b cs with Some r => Bool.eqb r o | None => false end\n" +
+		"  && Bool.eqb (iri_dom_u a && iri_dom_u b) dom\n" +
+		"  && (if dom then Bool.eqb (nf_u_eqb (nf_u cs a) (nf_u cs b)) o else true).\n"
+	cwE := NewCaseWriter(outDir, "Cases_C14_ueq", hdrE, "bytes * bytes * bool * bool * bool")
+	addE := func(a, b string, cs, obs bool, label string) {
+		cwE.Add("("+hx([]byte(a))+", "+hx([]byte(b))+", "+cbool(cs)+", "+cbool(obs)+", "+cbool(c14InDomU(a) && c14InDomU(b))+")", label)
+	}
+	// grid 1: presentations of hosts, paths and queries
 	var grid []string
 	hosts := []string{"example.com", "EXAMPLE.com", "exämple.com:8080", "EXÄMPLE.com:8080", "h%C3%A9", "hé"}
 	paths := []string{"", "/", "/a/b", "/a%2Fb", "/x/../a/./b/", "/é", "/É", "/%C3%A9", "/%c3%a9", "/%C3%89", "/k", "/K", "/%E2%84%AA", "/%4b",
@@ -156,132 +192,190 @@ func c14Wide(g *Gen, rep *Report, outDir string, n int) error {
 			}
 		}
 	}
-	strict := make([]c14WNF, len(grid))
-	lenient := make([]c14WNF, len(grid))
-	inDom := make([]bool, len(grid))
-	for i, s := range grid {
-		strict[i], lenient[i] = c14WideNorm(s, true), c14WideNorm(s, false)
-		if !strict[i].ok {
-			panic("wide grid: not an absolute URL: " + s)
-		}
-		inDom[i] = c14InDomU(s)
-	}
-	hdrE := "From AP.Model Require Import Prelude Vocab Bytes Url IriEq IriNf Pred CollIri Utf8 Fold UrlU IriEqU.\n" +
-		"Definition ok (c : bytes * bytes * bool * bool * bool) : bool := let '(a, b, cs, o, dom) := c in\n" +
-		"  match iri_equals_u a b cs with Some r => Bool.eqb r o | None => false end\n" +
-		"  && Bool.eqb (iri_dom_u a && iri_dom_u b) dom\n" +
-		"  && (if dom then Bool.eqb (nf_u_eqb (nf_u cs a) (nf_u cs b)) o else true).\n"
-	cwE := NewCaseWriter(outDir, "Cases_C14_ueq", hdrE, "bytes * bytes * bool * bool * bool")
-	for _, cs := range []bool{false, true} {
-		eq := make([][]bool, len(grid))
-		for i, a := range grid {
-			eq[i] = make([]bool, len(grid))
-			for j, b := range grid {
-				obs := ap.IRI(a).Equals(ap.IRI(b), cs)
-				eq[i][j] = obs
-				rep.Evaluations++
-				rep.Count("wide-pair")
-				if inDom[i] && inDom[j] {
-					want := c14WEqual(strict[i], strict[j], cs)
-					if obs != want {
-						cls := ""
-						if c14WEqual(lenient[i], lenient[j], cs) == obs {
-							cls = c14InvalidClass // the two differ in bytes that are not valid UTF-8 only
-						}
-						rep.Violate(Violation{Op: "IRI.Equals (wide grid)", Input: []any{a, b, cs}, Expected: fmt.Sprint(want), Observed: fmt.Sprint(obs), Class: cls})
-					}
+	// grid 2: authorities - userinfo (not compared: URL.Host excludes it), IP literals with zones and ports, IPv4
+	var gridA []string
+	auths := []string{"example.com", "u@example.com", "U@EXAMPLE.com", "u:p@example.com", "u:q@example.com", "a@b@example.com", "u%41:%3A@example.com", "@example.com",
+		"example.com:8080", "u@example.com:8080", "example.com:", "[::1]", "[::1]:", "[::1]:8080", "u:p@[::1]:8080", "[FE80::1%25eth0]", "[fe80::1%25ETH0]", "[fe80::1%25e%74h0]", "[fe80::1%25eth0]:8080",
+		"[2001:db8::7]", "[2001:DB8::7]", "127.0.0.1", "127.0.0.1:8080", "u@127.0.0.1", "[K%25k]", "[k%25\xe2\x84\xaa]", "[fe80::1%25\xff]", "[fe80::1%25\xfe]"}
+	for hi, h := range auths {
+		for pi, p := range []string{"", "/", "/a/b", "/x/../a/./b/", "/%ff", "/\xff", "/%fe"} {
+			for qi, q := range []string{"", "?x=1", "?x=%4a"} {
+				sch := "http"
+				if (hi+pi+qi)%2 == 1 {
+					sch = "HTTPS"
 				}
-				if (i*31+j*17)%(1+len(grid)*len(grid)/(1+n/6)) == 0 || i == j && i%9 == 0 {
-					cwE.Add("("+hx([]byte(a))+", "+hx([]byte(b))+", "+cbool(cs)+", "+cbool(obs)+", "+cbool(inDom[i] && inDom[j])+")", fmt.Sprintf("wide %d %d cs=%v", i, j, cs))
-					rep.Distinguish(fmt.Sprintf("w|%d|%d|%v", i, j, cs), a != b && lenient[i].host == lenient[j].host)
-				}
+				gridA = append(gridA, sch+"://"+h+p+q+[]string{"", "#f"}[(pi+qi)%2])
 			}
 		}
-		outside := 0
+	}
+	runGrid := func(name string, grid []string, quota int) {
+		strict := make([]c14WNF, len(grid))
+		lenient := make([]c14WNF, len(grid))
+		inDom := make([]bool, len(grid))
+		for i, s := range grid {
+			strict[i], lenient[i] = c14WideNorm(s, true), c14WideNorm(s, false)
+			if !strict[i].ok {
+				panic(name + ": not an absolute URL: " + s)
+			}
+			inDom[i] = c14InDomU(s)
+		}
+		for _, cs := range []bool{false, true} {
+			eq := make([][]bool, len(grid))
+			for i, a := range grid {
+				eq[i] = make([]bool, len(grid))
+				for j, b := range grid {
+					obs := ap.IRI(a).Equals(ap.IRI(b), cs)
+					eq[i][j] = obs
+					rep.Evaluations++
+					rep.Count(name + "-pair")
+					if inDom[i] && inDom[j] {
+						want := c14WEqual(strict[i], strict[j], cs)
+						if obs != want {
+							rep.Violate(Violation{Op: "IRI.Equals (" + name + ")", Input: []any{a, b, cs}, Expected: fmt.Sprint(want), Observed: fmt.Sprint(obs)})
+						}
+						if want && !utf8.ValidString(a+b) {
+							rep.Count(name + "-pair:equal-and-not-valid-utf8")
+						}
+					}
+					if (i*31+j*17)%(1+len(grid)*len(grid)/(1+quota)) == 0 || i == j && i%9 == 0 {
+						addE(a, b, cs, obs, fmt.Sprintf("%s %d %d cs=%v", name, i, j, cs))
+						rep.Distinguish(fmt.Sprintf("%s|%d|%d|%v", name, i, j, cs), a != b && lenient[i].host == lenient[j].host)
+					}
+				}
+			}
+			outside := 0
+			for i := range grid {
+				for j := range grid {
+					if !eq[i][j] {
+						continue
+					}
+					if !eq[j][i] {
+						rep.Violate(Violation{Op: "IRI.Equals symmetry (" + name + ")", Input: []any{grid[i], grid[j], cs}, Expected: "symmetric", Observed: "asymmetric"})
+					}
+					for k := range grid {
+						if eq[j][k] && !eq[i][k] {
+							if inDom[i] && inDom[j] && inDom[k] {
+								rep.Violate(Violation{Op: "IRI.Equals transitivity (" + name + ")", Input: []any{grid[i], grid[j], grid[k], cs}, Expected: "a=b, b=c => a=c", Observed: "a!=c"})
+							} else {
+								outside++
+							}
+						}
+					}
+				}
+			}
+			if outside > 0 {
+				rep.Count("outside-domain:mixed-case-query-not-transitive")
+			}
+		}
+		// related presentations (same host and cleaned path up to folding): where "equal" is frequent and a change of
+		// the folding or of the decoding shows
+		related := map[string][]int{}
 		for i := range grid {
-			for j := range grid {
-				if !eq[i][j] {
-					continue
-				}
-				if !eq[j][i] {
-					rep.Violate(Violation{Op: "IRI.Equals symmetry (wide grid)", Input: []any{grid[i], grid[j], cs}, Expected: "symmetric", Observed: "asymmetric"})
-				}
-				for k := range grid {
-					if eq[j][k] && !eq[i][k] {
-						if inDom[i] && inDom[j] && inDom[k] {
-							rep.Violate(Violation{Op: "IRI.Equals transitivity (wide grid)", Input: []any{grid[i], grid[j], grid[k], cs}, Expected: "a=b, b=c => a=c", Observed: "a!=c"})
-						} else {
-							outside++
-						}
-					}
-				}
+			k := lenient[i].host + "|" + lenient[i].path
+			related[k] = append(related[k], i)
+		}
+		for i := range grid {
+			if i%2 == 1 {
+				continue
+			}
+			same := related[lenient[i].host+"|"+lenient[i].path]
+			j := same[g.Intn(len(same))]
+			cs := g.Chance(1, 2)
+			obs := ap.IRI(grid[i]).Equals(ap.IRI(grid[j]), cs)
+			addE(grid[i], grid[j], cs, obs, fmt.Sprintf("%s related %d %d cs=%v", name, i, j, cs))
+			if obs {
+				rep.Count("coq-" + name + "-related:equal")
+			} else {
+				rep.Count("coq-" + name + "-related:unequal")
 			}
 		}
-		if outside > 0 {
-			rep.Count("outside-domain:invalid-utf8-not-transitive")
-		}
 	}
-	// related presentations (same host and cleaned path up to folding): where "equal" is frequent and a change of the
-	// folding or of the decoding shows
-	related := map[string][]int{}
-	for i := range grid {
-		k := lenient[i].host + "|" + lenient[i].path
-		related[k] = append(related[k], i)
-	}
-	for i := range grid {
-		if i%2 == 1 {
+	runGrid("wide", grid, n/6)
+	runGrid("authority", gridA, n/9)
+	// userinfo is not compared (the property: host with port, cleaned path, query): natively, every IRI of grid 2 with
+	// userinfo against the same IRI without it
+	for _, a := range gridA {
+		i := strings.Index(a, "://")
+		k := strings.LastIndex(a, "@")
+		if k < 0 {
 			continue
 		}
-		same := related[lenient[i].host+"|"+lenient[i].path]
-		j := same[g.Intn(len(same))]
-		cs := g.Chance(1, 2)
-		obs := ap.IRI(grid[i]).Equals(ap.IRI(grid[j]), cs)
-		cwE.Add("("+hx([]byte(grid[i]))+", "+hx([]byte(grid[j]))+", "+cbool(cs)+", "+cbool(obs)+", "+cbool(inDom[i] && inDom[j])+")", fmt.Sprintf("wide related %d %d cs=%v", i, j, cs))
-		if obs {
-			rep.Count("coq-wide-related:equal")
-		} else {
-			rep.Count("coq-wide-related:unequal")
+		b := a[:i+3] + a[k+1:]
+		for _, cs := range []bool{false, true} {
+			rep.Evaluations++
+			if !ap.IRI(a).Equals(ap.IRI(b), cs) || !ap.IRI(b).Equals(ap.IRI(a), cs) {
+				rep.Violate(Violation{Op: "IRI.Equals: userinfo is not compared", Input: []any{a, b, cs}, Expected: "true", Observed: "false"})
+			}
+		}
+		addE(a, b, true, ap.IRI(a).Equals(ap.IRI(b), true), fmt.Sprintf("userinfo dropped %q", a))
+	}
+	// directed authority pairs through the model: empty port, default port, userinfo, letter case of an IP literal and zone
+	for _, pr := range [][2]string{{"http://example.com:/a", "http://example.com/a"}, {"http://[::1]:/a", "http://[::1]/a"}, {"http://[::1]:8080/a", "http://[::1]/a"},
+		{"http://u:p@example.com/a", "http://example.com/./a"}, {"http://[FE80::1%25eth0]/a", "http://[fe80::1%25ETH0]/./a"}, {"http://127.0.0.1/a", "http://127.0.0.1:80/a"},
+		{"http://[fe80::1%25e%74h0]/a", "http://[fe80::1%25eth0]/./a"}, {"http://a@b@example.com/a", "http://b@example.com/./a"}} {
+		for _, cs := range []bool{false, true} {
+			addE(pr[0], pr[1], cs, ap.IRI(pr[0]).Equals(ap.IRI(pr[1]), cs), fmt.Sprintf("authority pair %q %q cs=%v", pr[0], pr[1], cs))
 		}
 	}
 	// pairs of the wide stream of the library cases: model = code, whatever the strings are
 	for k := 0; k < n/3; k++ {
 		a := g.uIRI(k % 3)
 		b := a
-		switch g.Intn(4) {
+		switch g.Intn(5) {
 		case 0:
 			b = g.uIRI(k % 3)
 		case 1:
 			b = strings.ToUpper(a)
 		case 2:
 			b = strings.Replace(a, "/", "/./", 1)
-		}
-		if strings.ContainsAny(a+b, "@[") {
-			continue
+		case 3:
+			if i := strings.Index(a, "://"); i >= 0 {
+				b = a[:i+3] + "Usr:pw@" + a[i+3:]
+			}
 		}
 		cs := g.Chance(1, 2)
 		obs := ap.IRI(a).Equals(ap.IRI(b), cs)
-		dom := c14InDomU(a) && c14InDomU(b)
-		cwE.Add("("+hx([]byte(a))+", "+hx([]byte(b))+", "+cbool(cs)+", "+cbool(obs)+", "+cbool(dom)+")", fmt.Sprintf("stream %d %q %q cs=%v", k, a, b, cs))
+		addE(a, b, cs, obs, fmt.Sprintf("stream %d %q %q cs=%v", k, a, b, cs))
+		if c14InDomU(a) && c14InDomU(b) {
+			rep.Evaluations++
+			if want := c14WEqual(c14WideNorm(a, true), c14WideNorm(b, true), cs); obs != want {
+				rep.Violate(Violation{Op: "IRI.Equals (wide stream)", Input: []any{a, b, cs}, Expected: fmt.Sprint(want), Observed: fmt.Sprint(obs)})
+			}
+		}
 	}
 	// the witnesses of Props/C14.v, replayed
 	wit := [][3]string{
-		{"http://h/./\xe2%84%aa", "http://h/\xe2%84%aa", "http://h/\xef\xbf\xbd%84%AA"}, // invalid UTF-8: c~a, a~b, c!~b
-		{"http://h/?X=%4a", "http://h/?x=%4a", "http://h/./?x=%4A"},                     // mixed query case
+		{"http://h/./\xe2%84%aa", "http://h/\xe2%84%aa", "http://h/\xef\xbf\xbd%84%AA"}, // invalid UTF-8: on the pinned tree c~a, a~b, c!~b; repaired: a!~b
+		{"http://h/?X=%4a", "http://h/?x=%4a", "http://h/./?x=%4A"},                     // mixed query case: a~b, b~c, a!~c
 	}
 	for wi, w := range wit {
 		ab, bc, ac := ap.IRI(w[0]).Equals(ap.IRI(w[1]), false), ap.IRI(w[1]).Equals(ap.IRI(w[2]), false), ap.IRI(w[0]).Equals(ap.IRI(w[2]), false)
 		for _, pr := range [][2]string{{w[0], w[1]}, {w[1], w[2]}, {w[0], w[2]}} {
-			cwE.Add("("+hx([]byte(pr[0]))+", "+hx([]byte(pr[1]))+", false, "+cbool(ap.IRI(pr[0]).Equals(ap.IRI(pr[1]), false))+", "+cbool(c14InDomU(pr[0]) && c14InDomU(pr[1]))+")", fmt.Sprintf("witness %d", wi))
+			addE(pr[0], pr[1], false, ap.IRI(pr[0]).Equals(ap.IRI(pr[1]), false), fmt.Sprintf("witness %d", wi))
 		}
-		if ab && bc && !ac {
-			rep.Count([]string{"outside-domain:invalid-utf8-witness-not-transitive", "outside-domain:mixed-case-escaped-queries-not-transitive"}[wi])
-		} else {
-			rep.Violate(Violation{Op: "witness of Props/C14.v does not replay", Input: w, Expected: "a=b, b=c, a!=c", Observed: fmt.Sprint(ab, bc, ac)})
+		switch {
+		case wi == 0 && ab && !bc && !ac:
+			rep.Count("repaired:invalid-utf8-witness-transitive")
+		case wi == 1 && ab && bc && !ac:
+			rep.Count("outside-domain:mixed-case-escaped-queries-not-transitive")
+		default:
+			rep.Violate(Violation{Op: "witness of Props/C14.v does not replay", Input: w, Expected: []string{"a=b, b!=c, a!=c", "a=b, b=c, a!=c"}[wi], Observed: fmt.Sprint(ab, bc, ac)})
 		}
 	}
-	// the finding: any two bytes that are not valid UTF-8 compare equal (strings.EqualFold decodes both to U+FFFD)
-	if ap.IRI("http://h/%ff").Equals(ap.IRI("http://h/%fe"), true) {
-		rep.Violate(Violation{Op: "IRI.Equals identifies paths that differ in an invalid UTF-8 byte", Input: []any{"http://h/%ff", "http://h/%fe", true}, Expected: "false", Observed: "true", Class: c14InvalidClass})
+	// the repaired defect: bytes that are not valid UTF-8 are equal to themselves only - raw, escaped, against U+FFFD
+	for _, pr := range [][2]string{{"http://h/%ff", "http://h/%fe"}, {"http://h/\xff", "http://h/\xfe"}, {"http://h/%ff", "http://h/\xef\xbf\xbd"}, {"http://h\xff/", "http://h\xfe/"}, {"x\xff", "x\xfe"}} {
+		rep.Evaluations++
+		if ap.IRI(pr[0]).Equals(ap.IRI(pr[1]), true) {
+			rep.Violate(Violation{Op: "IRI.Equals identifies strings that differ in a byte that is not valid UTF-8", Input: []any{pr[0], pr[1], true}, Expected: "false", Observed: "true"})
+		}
+		addE(pr[0], pr[1], true, ap.IRI(pr[0]).Equals(ap.IRI(pr[1]), true), fmt.Sprintf("invalid bytes %q %q", pr[0], pr[1]))
+	}
+	for _, pr := range [][2]string{{"http://h/A%ff", "http://h/a%FF"}, {"http://h/A\xff", "http://h/./a%ff"}} { // ... and letter case around them is still ignored
+		rep.Evaluations++
+		if !ap.IRI(pr[0]).Equals(ap.IRI(pr[1]), true) {
+			rep.Violate(Violation{Op: "IRI.Equals: letter case next to a byte that is not valid UTF-8", Input: []any{pr[0], pr[1], true}, Expected: "true", Observed: "false"})
+		}
+		addE(pr[0], pr[1], true, ap.IRI(pr[0]).Equals(ap.IRI(pr[1]), true), fmt.Sprintf("invalid bytes, case %q %q", pr[0], pr[1]))
 	}
 	rep.AddCases(cwE)
 	return nil
